@@ -73,6 +73,66 @@ def _nonws_index(text):
     return out
 
 
+def _pat_tokens(pattern):
+    """tokens of a rewrite pattern; `@@N` (N a number) is a hole matching a balanced token sequence"""
+    toks = sig(lex(pattern))
+    out, i = [], 0
+    while i < len(toks):
+        if toks[i].text == '@' and i + 2 < len(toks) + 0 and i + 1 < len(toks) and toks[i + 1].text == '@' and i + 2 < len(toks) and toks[i + 2].kind == 'num':
+            out.append(('hole', toks[i + 2].text)); i += 3
+        else:
+            out.append(('tok', toks[i].text)); i += 1
+    return out
+
+
+def find_span_holes(text, pattern, ordinal=None, what='anchor'):
+    """like find_span but the pattern may contain holes @@1, @@2 ..; returns (start, end, {hole: captured text})"""
+    pt = _pat_tokens(pattern)
+    if not any(k == 'hole' for k, _ in pt):
+        a, b = find_span(text, pattern, ordinal, what)
+        return a, b, {}
+    s = sig(lex(text))
+    hits = []
+    for i0 in range(len(s)):
+        i, caps, ok = i0, {}, True
+        for pi, (k, v) in enumerate(pt):
+            if k == 'tok':
+                if i < len(s) and s[i].text == v:
+                    i += 1
+                else:
+                    ok = False; break
+            else:
+                nxt = pt[pi + 1][1] if pi + 1 < len(pt) and pt[pi + 1][0] == 'tok' else None
+                depth, j = 0, i
+                while j < len(s):
+                    tx = s[j].text
+                    if depth == 0 and nxt is not None and tx == nxt and j > i:
+                        break
+                    if s[j].kind == 'punct' and tx in '([{': depth += 1
+                    elif s[j].kind == 'punct' and tx in ')]}':
+                        if depth == 0:
+                            break
+                        depth -= 1
+                    j += 1
+                if j == i:
+                    ok = False; break
+                caps[v] = text[s[i].start:s[j - 1].end]
+                i = j
+        if ok and i > i0:
+            hits.append((s[i0].start, s[i - 1].end, caps))
+    if not hits:
+        raise GenError('%s not found: %r' % (what, pattern.strip()[:120]))
+    if ordinal is None:
+        if len(hits) != 1:
+            raise GenError('%s ambiguous (%d hits): %r' % (what, len(hits), pattern.strip()[:120]))
+        return hits[0]
+    if ordinal == 0:
+        return hits[0]
+    if ordinal > len(hits):
+        raise GenError('%s occurrence #%d not found' % (what, ordinal))
+    return hits[ordinal - 1]
+
+
 def find_span(text, pattern, ordinal=None, what='anchor'):
     """find `pattern` in `text` comparing token streams (whitespace/comments insensitive).
     returns (start, end) offsets into text. ordinal: 1-based occurrence; None = must be unique."""
@@ -408,7 +468,7 @@ def parse_template(path):
                     if not w:
                         raise GenError('%s:%d empty directive' % (path, i + 1))
                     if w[0] in ('rw', 'rw?', 'rw!'):
-                        cur_rw = {'optional': w[0] == 'rw?' or (w[1] == 'R1' and w[0] != 'rw!'), 'rule': w[1], 'ordinal': (0 if w[2] == '#*' else int(w[2][1:])) if len(w) > 2 and w[2].startswith('#') else None}
+                        cur_rw = {'optional': w[0] != 'rw!', 'rule': w[1], 'ordinal': (0 if w[2] == '#*' else int(w[2][1:])) if len(w) > 2 and w[2].startswith('#') else None}
                         mode = 'rw_old'
                     elif w[0] == 'closure':
                         cur_rw = {'rule': 'R5c', 'ordinal': int(w[1][1:]) if len(w) > 1 and w[1].startswith('#') else None}
@@ -416,6 +476,13 @@ def parse_template(path):
                     elif w[0] == 'sigrw':
                         cur_rw = {'rule': w[1], 'sig': True, 'ordinal': None, 'optional': False}
                         mode = 'rw_old'
+                    elif w[0] == 'fmt':
+                        refs = []
+                        for a in w[1:]:
+                            if a.startswith('ref='):
+                                refs = a[4:].split(',')
+                        d.rws.append({'rule': 'R14', 'fmt': True, 'refs': refs, 'old': '', 'new': '', 'ordinal': None})
+                        mode = None
                     elif w[0] == 'statusmatch':
                         d.rws.append({'rule': 'R13', 'statusmatch': True, 'old': '', 'new': w[1] if len(w) > 1 else 'vp_status_in_set', 'ordinal': None})
                         mode = None
@@ -508,6 +575,9 @@ def apply_rws(text, d, log):
     for rw in d.rws:
         if rw.get('sig'):
             continue
+        if rw.get('fmt'):
+            text = rewrite_format_macros(text, rw['refs'], log)
+            continue
         if rw.get('statusmatch'):
             text = rewrite_status_matches(text, rw['new'], log)
             continue
@@ -520,10 +590,12 @@ def apply_rws(text, d, log):
             pos = 0
             while True:
                 try:
-                    a, b = find_span(text[pos:], rw['old'], 1, 'rewrite site (%s)' % rw['rule'])
+                    a, b, caps = find_span_holes(text[pos:], rw['old'], 1, 'rewrite site (%s)' % rw['rule'])
                 except GenError:
                     break
                 new = rw['new'].strip()
+                for hk, hv in caps.items():
+                    new = new.replace('@@' + hk, hv)
                 log.append((rw['rule'], strip_ws(text[pos + a:pos + b]), strip_ws(new)))
                 text = text[:pos + a] + new + text[pos + b:]
                 pos = pos + a + len(new)
@@ -532,13 +604,15 @@ def apply_rws(text, d, log):
                 raise GenError('rewrite site (%s) not found: %r' % (rw['rule'], rw['old'].strip()[:120]))
             continue
         try:
-            a, b = find_span(text, rw['old'], rw['ordinal'], 'rewrite site (%s)' % rw['rule'])
+            a, b, caps = find_span_holes(text, rw['old'], rw['ordinal'], 'rewrite site (%s)' % rw['rule'])
         except GenError as e:
             if rw.get('optional') and 'not found' in str(e):
                 log.append(('SKIP', strip_ws(rw['old']), 'optional rewrite site absent'))
                 continue
             raise
         new = rw['new'].strip('\n')
+        for hk, hv in caps.items():
+            new = new.replace('@@' + hk, hv)
         if rw['rule'].endswith('b') and rw['rule'] != 'R5c' and '@@BODY' in new:
             # block rewrite: anchor is a block header (`for .. in ..`, `match ..`); the `{..}` block that follows it is @@BODY
             j = b
@@ -570,6 +644,108 @@ def apply_rws(text, d, log):
         log.append((rw['rule'], strip_ws(text[a:b]), strip_ws(new)))
         text = text[:a] + new.strip() + text[b:]
     return text
+
+
+def parse_format_literal(lit):
+    """Rust format string (without quotes, escapes still encoded) -> list of ('lit', text) | ('arg', name_or_None, spec)"""
+    out, buf, i = [], '', 0
+    while i < len(lit):
+        c = lit[i]
+        if c == '{':
+            if i + 1 < len(lit) and lit[i + 1] == '{':
+                buf += '{'; i += 2; continue
+            j = lit.index('}', i)
+            inner = lit[i + 1:j]
+            if buf:
+                out.append(('lit', buf)); buf = ''
+            name, spec = (inner.split(':', 1) + [''])[:2] if ':' in inner else (inner, '')
+            out.append(('arg', name.strip() or None, spec.strip()))
+            i = j + 1
+        elif c == '}':
+            if i + 1 < len(lit) and lit[i + 1] == '}':
+                buf += '}'; i += 2; continue
+            raise GenError('bad format string')
+        elif c == '\\' and i + 1 < len(lit) and lit[i + 1] == '\n':
+            # line continuation inside a string literal: skip the newline and following whitespace
+            i += 2
+            while i < len(lit) and lit[i] in ' \t\r\n':
+                i += 1
+        else:
+            if c == '\\' and i + 1 < len(lit):
+                buf += lit[i:i + 2]; i += 2
+            else:
+                buf += c; i += 1
+    if buf:
+        out.append(('lit', buf))
+    return out
+
+
+def rewrite_format_macros(text, refs, log):
+    """R14: `write!(W, LIT, args..)` -> a chain of piece writes; `format!(LIT, args..)` -> a String built piece by piece.
+    Pieces: literal text -> vp_w_lit / vp_s_lit; `{}` -> vp_w_disp / vp_s_disp; `{:x}` -> *_hex; `{:?}` -> *_dbg.  (Formatting
+    macros write their pieces in order; the piece functions carry the assumed Display/LowerHex/Debug text of each type.)"""
+    while True:
+        s = sig(lex(text))
+        hit = None
+        for i, tk in enumerate(s):
+            if tk.kind == 'ident' and tk.text in ('write', 'format') and i + 2 < len(s) and s[i + 1].text == '!' and s[i + 2].text == '(':
+                hit = i
+                break
+        if hit is None:
+            return text
+        is_write = s[hit].text == 'write'
+        open_off = s[hit + 2].start
+        close = find_matching(text, open_off)
+        inner = text[open_off + 1:close - 1]
+        # split top-level commas
+        parts, depth, cur, toks = [], 0, '', sig(lex(inner))
+        last = 0
+        for tk in toks:
+            if tk.kind == 'punct' and tk.text in '([{': depth += 1
+            elif tk.kind == 'punct' and tk.text in ')]}': depth -= 1
+            elif tk.kind == 'punct' and tk.text == ',' and depth == 0:
+                parts.append(inner[last:tk.start]); last = tk.end
+        if inner[last:].strip():
+            parts.append(inner[last:])
+        parts = [p.strip() for p in parts]
+        if is_write:
+            w, lit, args = parts[0], parts[1], parts[2:]
+        else:
+            w, lit, args = None, parts[0], parts[1:]
+        if not (lit.startswith('"') and lit.endswith('"')):
+            raise GenError('format macro with a non-literal format string')
+        pieces = parse_format_literal(lit[1:-1])
+        ai = 0
+        calls = []
+        for p in pieces:
+            if p[0] == 'lit':
+                calls.append(('lit', '"%s"' % p[1]))
+            else:
+                _, name, spec = p
+                if name is None:
+                    if ai >= len(args):
+                        raise GenError('format macro: missing argument')
+                    e = args[ai]; ai += 1
+                elif name.isdigit():
+                    e = args[int(name)]
+                else:
+                    e = name
+                kind = {'': 'disp', 'x': 'hex', '?': 'dbg'}.get(spec)
+                if kind is None:
+                    raise GenError('format macro: unsupported format spec {:%s}' % spec)
+                calls.append((kind, e))
+        if is_write:
+            wexpr = ('&mut *%s' % w) if w in refs else ('&mut %s' % w)
+            expr = 'Ok(())'
+            for kind, e in reversed(calls):
+                call = 'vp_w_%s(%s, %s)' % (kind, wexpr, e if kind == 'lit' else '&(' + e + ')')
+                expr = 'match %s { Ok(()) => %s, Err(vp_e) => Err(vp_e) }' % (call, expr)
+            new = '(' + expr + ')'
+        else:
+            stmts = ''.join('vp_s_%s(&mut vp_s, %s); ' % (kind, e if kind == 'lit' else '&(' + e + ')') for kind, e in calls)
+            new = '{ let mut vp_s = String::new(); %svp_s }' % stmts
+        log.append(('R14', strip_ws(text[s[hit].start:close]), strip_ws(new)))
+        text = text[:s[hit].start] + new + text[close:]
 
 
 _status_table = None
@@ -1034,7 +1210,7 @@ def erasure_check(gen_text, meta):
         if rule == 'R9s':
             canon = re.sub(r'\bvp_self\b', 'self', canon)
             continue
-        if rule in ('R1', 'R5', 'R8', 'R2', 'R3', 'R7', 'R11', 'R12', 'R13'):
+        if rule in ('R1', 'R5', 'R8', 'R2', 'R3', 'R7', 'R11', 'R12', 'R13', 'R14'):
             n = strip_ws(new)
             if n and n in canon:
                 canon = canon.replace(n, strip_ws(old), 1)
@@ -1119,6 +1295,40 @@ def generate(unit, outdir=None):
         m2['gen_start_line'] = len(out_lines) - len(text.rstrip('\n').split('\n')) + 1
         m2['gen_end_line'] = len(out_lines)
         fns[key] = m2
+    # ---- constants referenced by extracted bodies but defined elsewhere in the same repo file (module level or in an impl block)
+    gen_text_all = '\n'.join(out_lines)
+    used = {tk.text for tk in sig(lex(gen_text_all)) if tk.kind == 'ident' and tk.text.isupper() and len(tk.text) > 2}
+    defined = set(re.findall(r'\bconst\s+([A-Z][A-Z0-9_]+)\s*:', gen_text_all))
+    extra = []
+    seen_files = sorted({m['file'] for m in fns.values() if not m.get('stub')})
+    for rel in seen_files:
+        src, items = _load(rel)
+        for it in items:
+            if it.kind != 'const' or it.name not in used or it.name in defined:
+                continue
+            if any(e.kind == 'fn' for e in it.encl):
+                continue
+            if _cfg_disabled(src[it.attrs_start:it.start]):
+                continue
+            body = r0_drop(src[it.start:it.end], [])
+            impls = [e for e in it.encl if e.kind == 'impl']
+            if impls:
+                # R15: an associated const is hoisted to module level; `Self::NAME` in extracted bodies becomes `NAME`
+                hdr = strip_ws(src[impls[-1].start:impls[-1].header_end])
+                if ' for ' in hdr:
+                    continue
+                extra.append('pub %s // vp:auto-const (R15, hoisted from `%s`) %s:%d' % (re.sub(r'^pub(\s*\([a-z]+\))?\s+', '', body.strip()), hdr[:40], rel, line_of(src, it.start)))
+                pat = re.compile(r'\bSelf\s*::\s*' + it.name + r'\b')
+                out_lines[:] = [pat.sub(it.name, l) for l in out_lines]
+            else:
+                extra.append('pub %s // vp:auto-const from %s:%d' % (re.sub(r'^pub(\s*\([a-z]+\))?\s+', '', body.strip()), rel, line_of(src, it.start)))
+            defined.add(it.name)
+    if extra:
+        # place after the last line of the verus! block's opening includes: just before the closing of verus! (the last line that is exactly '}')
+        idx = next(i for i, l in enumerate(out_lines) if l.strip().startswith('verus!')) + 1
+        for e in extra:
+            for l in e.split('\n'):
+                out_lines.insert(idx, l); linemap.insert(idx, {'k': 'template'}); idx += 1
     gen_path = os.path.join(outdir, unit + '.rs')
     open(gen_path, 'w').write('\n'.join(out_lines) + '\n')
     json.dump({'unit': unit, 'functions': fns, 'lines': linemap}, open(os.path.join(outdir, unit + '.map.json'), 'w'))
